@@ -95,15 +95,15 @@ type MEntry struct {
 
 // World is one real store plus its reference model.
 type World struct {
-	Cfg   Config
-	St    *kvstore.KVStore
-	Model map[uint64]*MEntry
-	Ver   int64
-	Fail  string // first failed step expectation ("" = none)
+	Cfg     Config
+	St      *kvstore.KVStore
+	Model   map[uint64]*MEntry
+	Ver     int64
+	Fail    string // first failed step expectation ("" = none)
 	FailKey string
 }
 
-func HKeyOf(key int) uint64 { return uint64(key + 1) }
+func HKeyOf(key int) uint64  { return uint64(key + 1) }
 func KeyName(key int) string { return string(rune('a' + key)) }
 
 func newStore(cfg Config) (*kvstore.KVStore, error) {
